@@ -2,12 +2,12 @@ SPECIFICATION InitOnly
 CONSTANTS
   Configs <- RealTextConfigs
   Ns = {1, 2, 3}
-  NestSets <- NestThorough
+  NestSets <- NestLive
   Bounds <- BoundsLive
   Pools = {FALSE, TRUE}
   Fds = {FALSE}
-  ScriptLen = 3
-  LongScripts = TRUE
+  ScriptLen = 0
+  LongScripts = FALSE
   FdStop = TRUE
   SkipAll = FALSE
 INVARIANT ExportCfg
